@@ -3,33 +3,101 @@ import LunarVerif.Proofs.C08
 # C08 — A configuration update is all-or-nothing
 
 Property theorems only (helpers: `Proofs/C08.lean`; model: `Model/C08.lean`; predicate: `Spec/C08.lean`).
-All general statements quantify over every environment (fault plan over the primitive steps,
-dry-run / metrics-loader verdicts, HAProxy behaviour, map iteration orders), every initial tree
-and engine, every request (endpoint, method, body, payload items in any order) and every set of
-probed paths.
+The model describes the code AFTER the repairs F08a–F08e (`fixes/F08*.patch`): `Restore()` iterates
+the backup and removes added files, `SaveMetricsConfig` writes the user metrics path, the handlers
+return after a 405, the new engine is switched in only after `Initialize()` succeeded, and
+`/apply_flows` takes the same backup / restore / reload path as `/configuration`.
 
-The unchanged code does NOT satisfy the property: the `*_witness` theorems exhibit the five
-ways it breaks (findings F08a–F08e, each replayed on the real handlers from `corpus/C08/`), and
-`c08_partial` proves the property for everything outside those classes.  The theorems whose name
-ends in `_fixed` are about the PROPOSED correction of `Restore()` / `SaveMetricsConfig`
-(`restoreFixed`, `handleConfigurationFixed` in the model file), not about the current code.
+All statements quantify over every environment (fault plan over the primitive steps, dry-run /
+metrics-loader verdicts, HAProxy behaviour, Go map iteration orders), every initial tree and
+engine, every request (endpoint, method, body, payload items in any order) and every set of
+probed paths. Hypotheses that recur:
+
+* `env.WF` — the environment is a legal one (clean-up ranges over the two configured files, map
+  iteration visits exactly the keys, validators depend on file contents only);
+* `env.RestoreFaultFree` — no fault INSIDE `Restore()` nor in the pre-switch part of the reload after
+  it (a second fault on top of the one being rolled back cannot be undone by any in-place protocol);
+  every other step may fail, in any combination;
+* `st.WF env` — the running configuration is valid and the engine was loaded from the tree on disk
+  (an invariant: `wellformed_preserved`);
+* `req.WF` — the payload does not name the built-in metrics file (the JSON has no field for it).
+
+One class of requests still breaks the property (finding F08f, open): a reload that fails AFTER the
+engine switch. `c08_partial` keeps it as an explicit excluded class; `switched_then_failed_witness`
+exhibits it.
 -/
 namespace LunarVerif.C08
 
-/-! ## What the current code guarantees -/
+/-! ## The property -/
 
-/-- Connection theorem (partial form of the full property): for every model step whose request is
-    outside the known-finding classes (`finding … = none`: method PUT; if not answered 200 then
-    rejected before the first save; if answered 200 then no transaction at the publish point and
-    no metrics item aimed at a missing user file), the Spec predicate — the one the judge evaluates
-    on the real implementation's answers — holds. -/
-theorem c08_partial (env : Env) (hco : env.CleanOrderOk) (probes : List Path) (st : State) (req : Req)
+/-- Connection theorem: for every model step whose request is outside the one remaining
+    known-finding class (`finding … = none`: the failed request had not already switched engines),
+    the Spec predicate — the one the judge evaluates on the real implementation's answers — holds:
+    not answered 200 ⇒ tree byte for byte as before, probe verdicts as before, transactions at the
+    switch points served as before; answered 200 ⇒ every transaction at the switch point is served
+    by the old or by the new configuration and the tree is the payload applied. -/
+theorem c08_partial (env : Env) (hwf : env.WF) (hff : env.RestoreFaultFree) (probes : List Path)
+    (st : State) (hst : st.WF env) (req : Req) (hreq : req.WF)
     (hclass : finding (observe probes st req (handle env st req)) = none) :
     holds (observe probes st req (handle env st req)) = true :=
-  partial_holds env hco probes st req hclass
+  partial_holds env hwf hff probes st hst req hreq hclass
 
-/-- A request that stops in the decode / no-data / backup / parse phase changes neither the tree
-    nor the engine, and no engine is published on the way. -/
+/-- The state hypothesis of `c08_partial` is an invariant of the protocol: it survives every
+    request (so the theorems apply to any sequence of requests). -/
+theorem wellformed_preserved (env : Env) (hwf : env.WF) (hff : env.RestoreFaultFree)
+    (st : State) (hst : st.WF env) (req : Req) (hreq : req.WF) :
+    (handle env st req).state.WF env :=
+  wf_preserved env hwf hff st hst req hreq
+
+/-- (A) Rollback, general form, both endpoints: ANY combination of failures before the restore
+    (injected faults in backup / clean-up / saves / dry run / Initialize / HAProxy / metrics, payloads
+    failing validation, bad metrics) ⇒ a request not answered 200 leaves the tree byte for byte as
+    before and the engine serving every path as before. -/
+theorem rollback (env : Env) (hwf : env.WF) (hff : env.RestoreFaultFree)
+    (st : State) (hst : st.WF env) (req : Req) (hreq : req.WF)
+    (hs : (handle env st req).status ≠ 200) :
+    (∀ p, (handle env st req).disk.get p = st.disk.get p) ∧
+    (∀ p, (handle env st req).engine.probe p = st.engine.probe p) :=
+  rollback_aux env hwf hff st hst req hreq hs
+
+/-- (A) Rollback, single-fault form: for every payload and every step `k` outside the restore, if
+    the fault plan fails exactly step `k`, a request not answered 200 leaves disk and behaviour as
+    before. -/
+theorem rollback_single_fault (env : Env) (hwf : env.WF) (k : Step)
+    (hk : env.plan = fun s => decide (s = k)) (hnr : k.inRestore = false)
+    (st : State) (hst : st.WF env) (req : Req) (hreq : req.WF)
+    (hs : (handle env st req).status ≠ 200) :
+    (∀ p, (handle env st req).disk.get p = st.disk.get p) ∧
+    (∀ p, (handle env st req).engine.probe p = st.engine.probe p) :=
+  rollback_aux env hwf (single_fault_restoreFaultFree env k hk hnr) st hst req hreq hs
+
+/-- (B) A 200 means: method PUT, decodable payload, the tree is the payload applied (overlaid by
+    `/configuration`, replacing everything in scope by `/apply_flows`), the engine serving
+    afterwards was initialised from exactly that tree, and every transaction that arrived at the
+    switch point was served by the OLD engine — never by a half-built one. -/
+theorem success_switch_atomic (env : Env) (hwf : env.WF) (hff : env.RestoreFaultFree)
+    (st : State) (hst : st.WF env) (req : Req) (hreq : req.WF)
+    (hs : (handle env st req).status = 200) :
+    req.methodPut = true ∧ (handle env st req).phase = .ok ∧
+    (handle env st req).engine = .ready (handle env st req).disk ∧
+    (∀ e ∈ (handle env st req).mid, e = st.engine) ∧
+    ∃ items, req.body = .payload items ∧ (parse items).isSome = true ∧
+      ∀ p, (handle env st req).disk.get p = expectedGet req.ep items st.disk p :=
+  success_aux env hwf hff st hst req hreq hs
+
+/-- `Restore()` brings back exactly the backed-up tree, whatever the clean-up and the saves did, in
+    whatever order Go ranges over the backup, as long as nothing outside the scope of the backup
+    was touched and the restore itself does not fail. -/
+theorem restore_restores (env : Env) (hwf : env.WF) (hrr : env.plan .restoreRead = false)
+    (hnf : ∀ p, env.plan (.restoreStore p) = false) (d0 d : Disk)
+    (hunc : ∀ q, q.covered = false → d.get q = d0.get q) :
+    ∀ q, (restore env (snapshot d0) d).1.get q = d0.get q :=
+  restore_correct env hwf hrr hnf d0 d hunc
+
+/-! ## Rejections before the first write (no hypothesis on environment or state) -/
+
+/-- A request that stops in the method / decode / no-data / backup / parse phase changes neither the
+    tree nor the engine — literally — and reaches no switch point. -/
 theorem rejected_before_save_leaves_state (env : Env) (st : State) (req : Req)
     (h : (handle env st req).phase.early = true) :
     (handle env st req).disk = st.disk ∧ (handle env st req).engine = st.engine ∧
@@ -37,8 +105,7 @@ theorem rejected_before_save_leaves_state (env : Env) (st : State) (req : Req)
   early_handle env st req h
 
 /-- An undecodable payload (malformed JSON, `null`, or any item that is not base64) is answered
-    with a status other than 200 and leaves the tree and the engine untouched — on both endpoints,
-    whatever faults are injected. -/
+    with a status other than 200 and leaves tree and engine untouched, whatever faults are injected. -/
 theorem undecodable_payload_leaves_disk (env : Env) (st : State) (req : Req)
     (h : req.body.undecodable = true) :
     (handle env st req).status ≠ 200 ∧ (handle env st req).disk = st.disk ∧
@@ -47,39 +114,15 @@ theorem undecodable_payload_leaves_disk (env : Env) (st : State) (req : Req)
   obtain ⟨hd, hen, _⟩ := early_handle env st req he
   exact ⟨hs, hd, hen⟩
 
-/-- A 200 means: method PUT, decodable payload, the engine serving afterwards was initialised from
-    exactly the tree on disk, and (unless the metrics item was diverted to the built-in file, F08d)
-    the tree is the payload applied: overlaid by `/configuration`, replacing everything in scope by
-    `/apply_flows`. -/
-theorem success_disk_is_payload (env : Env) (hco : env.CleanOrderOk) (st : State) (req : Req)
-    (hs : (handle env st req).status = 200) :
-    req.methodPut = true ∧ (handle env st req).phase = .ok ∧
-    (handle env st req).engine = .ready (handle env st req).disk ∧
-    ∃ items, req.body = .payload items ∧ (parse items).isSome = true ∧
-      (metricsMismatch (observe [] st req (handle env st req)) = false →
-        ∀ p, (handle env st req).disk.get p = expectedGet req.ep items st.disk p) :=
-  success_char env hco st req hs
+/-- A request with any method other than PUT is answered 405 and does nothing. -/
+theorem non_put_is_rejected (env : Env) (st : State) (req : Req) (h : req.methodPut = false) :
+    (handle env st req).status = 405 ∧ (handle env st req).disk = st.disk ∧
+    (handle env st req).engine = st.engine := by
+  obtain ⟨hs, hp⟩ := non_put_handle env st req h
+  obtain ⟨hd, hen, _⟩ := early_handle env st req (by rw [hp]; rfl)
+  exact ⟨hs, hd, hen⟩
 
-/-! ## How the current code breaks the property -/
-
-/-- F08a, root cause, general form: whatever was backed up, `Restore()` (when none of its stores
-    fails) leaves every file exactly as it finds it. -/
-theorem restore_is_noop (env : Env) (backup d : Disk) (hwf : d.WF)
-    (hnf : ∀ p, env.plan (.restoreStore p) = false) :
-    ∀ p, (restore env backup d).1.get p = d.get p :=
-  restore_noop env backup d hwf hnf
-
-/-- F08a, the probed scenario: backup; save `a.yaml := new`; save `b.yaml`; restore — `a.yaml` still
-    has the new content and `b.yaml` still exists. -/
-theorem restore_is_noop_witness :
-    let env := demoEnv none
-    let d0 : Disk := [(.flow "a.yaml", "old")]
-    let backup := snapshot d0
-    let d1 := (saveAll env d0 [(.flow "a.yaml", "new"), (.flow "b.yaml", "added")]).1
-    (restore env backup d1).2 = true ∧
-    (restore env backup d1).1.get (.flow "a.yaml") = some "new" ∧
-    (restore env backup d1).1.get (.flow "b.yaml") = some "added" := by
-  decide
+/-! ## What still breaks the property (F08f, open) and what lies outside its hypotheses -/
 
 def wState : State :=
   ⟨[(.flow "a.yaml", "v1"), (.gateway, "g1"), (.defaultMetrics, "m0")],
@@ -87,81 +130,25 @@ def wState : State :=
 
 def wProbes : List Path := [.flow "a.yaml", .flow "b.yaml"]
 
-/-- F08a: `PUT /configuration` with one changed valid flow and one flow failing validation is
-    answered 422 and the tree stays changed (same scenario as `corpus/C08/F08a.ops`). -/
-theorem configuration_rollback_violation_witness :
-    ∃ (env : Env) (st : State) (req : Req) (probes : List Path),
+/-- F08f: the HAProxy update fails after the engine switch. The request is answered 422 and fully
+    rolled back (tree and final verdicts as before) — but the transaction arriving at the switch
+    point of the rollback reload is served by the REJECTED configuration (`v2`). -/
+theorem switched_then_failed_witness :
+    ∃ (env : Env) (st : State) (req : Req),
+      env.WF ∧ env.RestoreFaultFree ∧ st.WF env ∧ req.WF ∧
       (handle env st req).status = 422 ∧
-      (handle env st req).disk.get (.flow "a.yaml") ≠ st.disk.get (.flow "a.yaml") ∧
-      holds (observe probes st req (handle env st req)) = false ∧
-      finding (observe probes st req (handle env st req)) = some "F08a" :=
-  ⟨demoEnv none, wState,
-   ⟨.configuration, true, .payload [⟨.flow "a.yaml", some "v2"⟩, ⟨.flow "b.yaml", some "bad"⟩], false⟩,
-   wProbes, by decide⟩
-
-/-- F08b: `PUT /apply_flows` has no backup and starts with `CleanAll`: a payload failing validation
-    is answered 422 with the old flow and the gateway configuration gone. -/
-theorem apply_flows_no_rollback_witness :
-    ∃ (env : Env) (st : State) (req : Req) (probes : List Path),
-      (handle env st req).status = 422 ∧
-      (handle env st req).disk.get (.flow "a.yaml") = none ∧
-      (handle env st req).disk.get .gateway = none ∧
-      holds (observe probes st req (handle env st req)) = false ∧
-      finding (observe probes st req (handle env st req)) = some "F08b" :=
-  ⟨demoEnv none, wState,
-   ⟨.applyFlows, true, .payload [⟨.flow "b.yaml", some "bad"⟩], false⟩, wProbes, by decide⟩
-
-/-- F08c: during a SUCCESSFUL update a transaction arriving between `rd.stream = stream` and
-    `Initialize()` is served by an engine that knows no flow at all, although both the old and the
-    new configuration have a flow for it. -/
-theorem half_built_engine_witness :
-    ∃ (env : Env) (st : State) (req : Req),
-      (handle env st req).status = 200 ∧
-      st.engine.probe (.flow "a.yaml") = some "v1" ∧
-      (handle env st req).engine.probe (.flow "a.yaml") = some "v2" ∧
-      (handle env st req).mid.map (fun e => e.probe (.flow "a.yaml")) = [none] ∧
+      sameDisk (handle env st req).disk st.disk = true ∧
+      (handle env st req).engine.probe (.flow "a.yaml") = some "v1" ∧
+      (handle env st req).mid.map (fun e => e.probe (.flow "a.yaml")) = [some "v1", some "v2"] ∧
       holds (observe wProbes st req (handle env st req)) = false ∧
-      finding (observe wProbes st req (handle env st req)) = some "F08c" :=
-  ⟨demoEnv none, wState,
-   ⟨.configuration, true, .payload [⟨.flow "a.yaml", some "v2"⟩], true⟩, by decide⟩
+      finding (observe wProbes st req (handle env st req)) = some "F08f" :=
+  ⟨demoEnv (some (.haproxy 1)), wState,
+   ⟨.configuration, true, .payload [⟨.flow "a.yaml", some "v2"⟩], true⟩,
+   demoEnv_wf _, single_fault_restoreFaultFree _ (.haproxy 1) rfl rfl,
+   ⟨by decide, by decide, fun _ => rfl⟩, by simp [Req.WF, itemsWF, itemPaths], by decide⟩
 
-/-- F08c, second half: if `Initialize()` fails, the un-initialised engine stays published and
-    serves nothing (here through `/apply_flows`, which does not even try to reload again). -/
-theorem failed_initialize_stays_published_witness :
-    ∃ (env : Env) (st : State) (req : Req),
-      (handle env st req).status = 422 ∧
-      st.engine.probe (.flow "a.yaml") = some "v1" ∧
-      (handle env st req).disk.get (.flow "a.yaml") = some "v2" ∧
-      (handle env st req).engine.probe (.flow "a.yaml") = none :=
-  ⟨demoEnv (some (.initialize 1)), wState,
-   ⟨.applyFlows, true, .payload [⟨.flow "a.yaml", some "v2"⟩], false⟩, by decide⟩
-
-/-- F08d: with no user metrics file, the payload's metrics overwrite the built-in default file —
-    outside the scope of backup and clean-up — and the user metrics path stays empty. -/
-theorem metrics_path_mismatch_witness :
-    ∃ (env : Env) (st : State) (req : Req),
-      (handle env st req).status = 200 ∧
-      (handle env st req).disk.get .userMetrics = none ∧
-      (handle env st req).disk.get .defaultMetrics = some "m1" ∧
-      Path.covered .defaultMetrics = false ∧
-      holds (observe wProbes st req (handle env st req)) = false ∧
-      finding (observe wProbes st req (handle env st req)) = some "F08d" :=
-  ⟨demoEnv none, wState,
-   ⟨.configuration, true, .payload [⟨.userMetrics, some "m1"⟩], false⟩, by decide⟩
-
-/-- F08e: a `GET /configuration` is answered 405 — and the payload is applied all the same. -/
-theorem method_check_falls_through_witness :
-    ∃ (env : Env) (st : State) (req : Req),
-      (handle env st req).status = 405 ∧
-      (handle env st req).disk.get (.flow "a.yaml") = some "v2" ∧
-      (handle env st req).engine.probe (.flow "a.yaml") = some "v2" ∧
-      holds (observe wProbes st req (handle env st req)) = false ∧
-      finding (observe wProbes st req (handle env st req)) = some "F08e" :=
-  ⟨demoEnv none, wState,
-   ⟨.configuration, false, .payload [⟨.flow "a.yaml", some "v2"⟩], false⟩, by decide⟩
-
-/-- Double fault (information, not a finding of its own): a store failing INSIDE `Restore()`
-    deletes the file it was "restoring". -/
+/-- Double fault (outside `RestoreFaultFree`; information, not a finding): a store failing INSIDE
+    `Restore()` leaves the file it was restoring deleted. -/
 theorem restore_fault_deletes_file_witness :
     ∃ (env : Env) (st : State) (req : Req),
       (handle env st req).status = 422 ∧
@@ -171,73 +158,53 @@ theorem restore_fault_deletes_file_witness :
    ⟨.configuration, true, .payload [⟨.flow "a.yaml", some "v2"⟩, ⟨.flow "b.yaml", some "bad"⟩], false⟩,
    by decide⟩
 
-/-! ## The proposed fix (`restoreFixed`, `handleConfigurationFixed`) — NOT the current code -/
-
-/-- The corrected `Restore()` (iterate the backup, write the backed-up contents, remove covered
-    paths absent from the backup) brings back exactly the backed-up tree, whatever the saves did,
-    as long as nothing outside the scope of the backup was touched and the restore itself does
-    not fail. -/
-theorem restoreFixed_restores_fixed (env : Env) (hrr : env.plan .restoreRead = false)
-    (hnf : ∀ p, env.plan (.restoreStore p) = false) (d0 d : Disk)
-    (hunc : ∀ q, q.covered = false → d.get q = d0.get q) :
-    ∀ q, (restoreFixed env (snapshot d0) d).1.get q = d0.get q :=
-  restoreFixed_correct env hrr hnf d0 d hunc
-
-/-- Rollback with the fix, general form: ANY combination of failures before the restore (injected
-    faults in backup / saves / dry run / Initialize / HAProxy / metrics of round 1, payloads
-    failing validation, bad metrics), restore and the reload after it fault-free, the running
-    configuration valid and in sync with the disk ⇒ a request not answered 200 leaves the tree
-    byte for byte as before and the engine serving every path as before. -/
-theorem rollback_fixed (env : Env) (hext : env.Extensional) (hff : env.RestoreFaultFree)
-    (st : State) (req : Req) (hput : req.methodPut = true)
-    (hwf : ∀ items, req.body = .payload items → Path.defaultMetrics ∉ itemPaths items)
-    (hv : env.validates st.disk = true) (hm : env.metricsOk st.disk = true)
-    (hsync : ∀ p, st.engine.probe p = st.disk.get p)
-    (hs : (handleConfigurationFixed env st req).status ≠ 200) :
-    (∀ p, (handleConfigurationFixed env st req).disk.get p = st.disk.get p) ∧
-    (∀ p, (handleConfigurationFixed env st req).engine.probe p = st.engine.probe p) :=
-  rollback_fixed_aux env hext hff st req hput hwf hv hm hsync hs
-
-/-- Rollback with the fix, single-fault form: for every payload and every step `k` outside the
-    restore, if the fault plan fails exactly step `k`, a request not answered 200 leaves the disk
-    and the engine's behaviour as before. -/
-theorem rollback_single_fault_fixed (env : Env) (k : Step)
-    (hk : env.plan = fun s => decide (s = k)) (hnr : k.inRestore = false)
-    (hext : env.Extensional) (st : State) (req : Req) (hput : req.methodPut = true)
-    (hwf : ∀ items, req.body = .payload items → Path.defaultMetrics ∉ itemPaths items)
-    (hv : env.validates st.disk = true) (hm : env.metricsOk st.disk = true)
-    (hsync : ∀ p, st.engine.probe p = st.disk.get p)
-    (hs : (handleConfigurationFixed env st req).status ≠ 200) :
-    (∀ p, (handleConfigurationFixed env st req).disk.get p = st.disk.get p) ∧
-    (∀ p, (handleConfigurationFixed env st req).engine.probe p = st.engine.probe p) :=
-  rollback_fixed_aux env hext (single_fault_restoreFaultFree env k hk hnr) st req hput hwf hv hm hsync hs
-
 /-! ## Non-vacuity -/
 
-/-- `c08_partial` covers real successes: a valid update without a transaction at the publish
-    point is outside every finding class, is answered 200 and changes the tree. -/
+/-- The hypotheses of the general theorems are met by a concrete non-trivial environment and state. -/
+example : (demoEnv none).WF ∧ (demoEnv none).RestoreFaultFree ∧ wState.WF (demoEnv none) :=
+  ⟨demoEnv_wf _, ⟨rfl, fun _ => rfl, rfl, rfl⟩, ⟨by decide, by decide, fun _ => rfl⟩⟩
+
+/-- `rollback` on the former F08a scenario (one changed valid flow + one flow failing validation):
+    422, tree and verdicts as before; with a probe at the switch point too. -/
 example :
-    let req : Req := ⟨.configuration, true, .payload [⟨.flow "a.yaml", some "v2"⟩, ⟨.flow "c.yaml", some "v1"⟩], false⟩
+    let req : Req := ⟨.configuration, true, .payload [⟨.flow "a.yaml", some "v2"⟩, ⟨.flow "b.yaml", some "bad"⟩], true⟩
+    (handle (demoEnv none) wState req).status = 422 ∧
+    sameDisk (handle (demoEnv none) wState req).disk wState.disk = true ∧
     finding (observe wProbes wState req (handle (demoEnv none) wState req)) = none ∧
+    holds (observe wProbes wState req (handle (demoEnv none) wState req)) = true := by
+  decide
+
+/-- `rollback_single_fault`: an injected fault on the second save (500), and `/apply_flows` with a
+    payload failing validation after the tree was wiped (former F08b): both rolled back. -/
+example :
+    let env := demoEnv (some (.save (.flow "b.yaml")))
+    let req : Req := ⟨.configuration, true, .payload [⟨.flow "a.yaml", some "v2"⟩, ⟨.flow "b.yaml", some "v1"⟩], false⟩
+    (Step.save (.flow "b.yaml")).inRestore = false ∧
+    (handle env wState req).status = 500 ∧ sameDisk (handle env wState req).disk wState.disk = true := by
+  decide
+
+example :
+    let req : Req := ⟨.applyFlows, true, .payload [⟨.flow "b.yaml", some "bad"⟩], true⟩
+    (handle (demoEnv none) wState req).status = 422 ∧
+    sameDisk (handle (demoEnv none) wState req).disk wState.disk = true ∧
+    (handle (demoEnv none) wState req).engine.probe (.flow "a.yaml") = some "v1" ∧
+    holds (observe wProbes wState req (handle (demoEnv none) wState req)) = true := by
+  decide
+
+/-- `success_switch_atomic`: a valid update with a transaction at the switch point (former F08c):
+    200, the transaction is served by the old engine (`v1`), afterwards `v2`; the metrics item goes
+    to the user metrics file, the built-in one is untouched (former F08d). -/
+example :
+    let req : Req := ⟨.configuration, true, .payload [⟨.flow "a.yaml", some "v2"⟩, ⟨.userMetrics, some "m1"⟩], true⟩
     (handle (demoEnv none) wState req).status = 200 ∧
-    (handle (demoEnv none) wState req).disk.get (.flow "c.yaml") = some "v1" := by
+    (handle (demoEnv none) wState req).mid.map (fun e => e.probe (.flow "a.yaml")) = [some "v1"] ∧
+    (handle (demoEnv none) wState req).engine.probe (.flow "a.yaml") = some "v2" ∧
+    (handle (demoEnv none) wState req).disk.get .userMetrics = some "m1" ∧
+    (handle (demoEnv none) wState req).disk.get .defaultMetrics = some "m0" ∧
+    holds (observe wProbes wState req (handle (demoEnv none) wState req)) = true := by
   decide
 
-/-- … and real rejections: bad base64 in the second item, backup read failing. -/
-example :
-    let req : Req := ⟨.configuration, true, .payload [⟨.flow "a.yaml", some "v2"⟩, ⟨.flow "b.yaml", none⟩], true⟩
-    req.body.undecodable = true ∧
-    finding (observe wProbes wState req (handle (demoEnv none) wState req)) = none ∧
-    (handle (demoEnv none) wState req).status = 400 := by
-  decide
-
-example :
-    let req : Req := ⟨.configuration, true, .payload [⟨.flow "a.yaml", some "v2"⟩], true⟩
-    (handle (demoEnv (some .backupRead)) wState req).phase.early = true ∧
-    (handle (demoEnv (some .backupRead)) wState req).status = 500 := by
-  decide
-
-/-- `success_disk_is_payload` for `/apply_flows`: everything in scope is replaced. -/
+/-- `/apply_flows` success replaces everything in scope. -/
 example :
     let req : Req := ⟨.applyFlows, true, .payload [⟨.flow "c.yaml", some "v1"⟩], false⟩
     (handle (demoEnv none) wState req).status = 200 ∧
@@ -247,28 +214,22 @@ example :
     (handle (demoEnv none) wState req).disk.get .defaultMetrics = some "m0" := by
   decide
 
-/-- The hypotheses of `restore_is_noop` are met by the F08a scenario (`WF` disk, no restore fault). -/
-example : Disk.WF wState.disk ∧ ∀ p, (demoEnv none).plan (.restoreStore p) = false :=
-  ⟨by unfold Disk.WF Disk.keys; decide, fun _ => rfl⟩
-
-/-- The hypotheses of `rollback_single_fault_fixed` are satisfiable, and the fixed handler does
-    roll the F08a scenario back (422, tree and verdicts as before) — also when the failure is an
-    injected fault on the second save (500). -/
+/-- Early rejections: bad base64 in the second item; backup read failing; GET (former F08e). -/
 example :
-    let req : Req := ⟨.configuration, true, .payload [⟨.flow "a.yaml", some "v2"⟩, ⟨.flow "b.yaml", some "bad"⟩], false⟩
-    (handleConfigurationFixed (demoEnv none) wState req).status = 422 ∧
-    sameDisk (handleConfigurationFixed (demoEnv none) wState req).disk wState.disk = true ∧
-    (handleConfigurationFixed (demoEnv none) wState req).engine.probe (.flow "a.yaml") = some "v1" ∧
-    (demoEnv none).validates wState.disk = true ∧ (demoEnv none).metricsOk wState.disk = true := by
+    let req : Req := ⟨.configuration, true, .payload [⟨.flow "a.yaml", some "v2"⟩, ⟨.flow "b.yaml", none⟩], true⟩
+    req.body.undecodable = true ∧ (handle (demoEnv none) wState req).status = 400 := by
   decide
 
 example :
-    let env := demoEnv (some (.save (.flow "b.yaml")))
-    let req : Req := ⟨.configuration, true, .payload [⟨.flow "a.yaml", some "v2"⟩, ⟨.flow "b.yaml", some "v1"⟩], false⟩
-    (Step.save (.flow "b.yaml")).inRestore = false ∧
-    (handleConfigurationFixed env wState req).status = 500 ∧
-    sameDisk (handleConfigurationFixed env wState req).disk wState.disk = true ∧
-    sameDisk (handleConfiguration env wState req).disk wState.disk = false := by
+    let req : Req := ⟨.applyFlows, true, .payload [⟨.flow "a.yaml", some "v2"⟩], true⟩
+    (handle (demoEnv (some .backupRead)) wState req).phase.early = true ∧
+    (handle (demoEnv (some .backupRead)) wState req).status = 500 := by
+  decide
+
+example :
+    let req : Req := ⟨.configuration, false, .payload [⟨.flow "a.yaml", some "v2"⟩], false⟩
+    (handle (demoEnv none) wState req).status = 405 ∧
+    (handle (demoEnv none) wState req).disk.get (.flow "a.yaml") = some "v1" := by
   decide
 
 end LunarVerif.C08
